@@ -13,7 +13,7 @@ INFO = {
     'functions': ['all four evaluate()/update() entry points and every visitor below them (as C01-C05)', 'rtamt.syntax.ast.parser.abstract_ast_parser (shared class-level state)',
                   'module-level state of rtamt.semantics.*'],
     'bounds': {'quick': 'caller data: every operator (F1) x bounds x N in 1,2,4 (N below and above the bounds) offline, online, dense offline/online; repeatability: evaluate twice; '
-                        'isolation: two objects, every interleaving of 2+2 calls (3+3 in thorough) against the solo runs; hash seed: 3 PYTHONHASHSEED values (enumeration, not solver-decided)',
+                        'isolation: two objects, every interleaving of 2+2 calls (3+3 in thorough) against the solo runs; hash seed: 3 PYTHONHASHSEED values (enumeration, not solver-decided); tuple columns; the notation cases of vf/pool.py evaluated three times',
                'thorough': 'N up to 6, F2 sample, 16 hash seeds'},
     'outside': 'the hash-seed clause is decided by enumeration of seeds, not by the solver (the seed is not an input of the encoded code)',
     'assumptions': ['"untouched" = same container structure and the same element objects / solver-equal terms before and after each call'],
